@@ -36,7 +36,7 @@ def scenarios(tier: str) -> List[Dict[str, Any]]:
             k += 1
             if tier == "quick" and len(sub) == 2 and (k % 3):
                 continue
-            out.append({"seq": seq, "feat": list(sub), "kind": k % len(KINDS), "plus": bool(k % 2), "prec": 3 + k % 6})
+            out.append({"seq": seq, "feat": list(sub), "kind": k % len(KINDS), "plus": bool((k // 4) % 2), "prec": 3 + (k // 8) % 6})   # mixed radix
     return out
 
 
